@@ -84,13 +84,18 @@ func (self AnalyzedTriggerStatement) Type() Type { return NewNullType(self.Range
 type AnalyzedTypeDefinition struct {
 	LhsIdent string
 	RhsType  Type
+	IsPub    bool
 	Range    errors.Span
 }
 
 func (self AnalyzedTypeDefinition) Kind() AnalyzedStatementKind { return TypeDefinitionStatementKind }
 func (self AnalyzedTypeDefinition) Span() errors.Span           { return self.Range }
 func (self AnalyzedTypeDefinition) String() string {
-	return fmt.Sprintf("type %s = %s;", self.LhsIdent, self.RhsType)
+	pub := ""
+	if self.IsPub {
+		pub = "pub "
+	}
+	return fmt.Sprintf("%stype %s = %s;", pub, self.LhsIdent, self.RhsType)
 }
 func (self AnalyzedTypeDefinition) Type() Type { return NewNullType(self.Range) }
 
@@ -101,6 +106,7 @@ type AnalyzedLetStatement struct {
 	VarType                    Type
 	NeedsRuntimeTypeValidation bool // is set to `true` if the rhs is of type `any`
 	OptType                    Type
+	IsPub                      bool
 	Range                      errors.Span
 }
 
@@ -108,10 +114,14 @@ func (self AnalyzedLetStatement) Kind() AnalyzedStatementKind { return LetStatem
 func (self AnalyzedLetStatement) Span() errors.Span           { return self.Range }
 func (self AnalyzedLetStatement) String() string {
 	// The type of a diverging initializer (`never`, also nested as in `[never]`) cannot be written down.
-	if containsNever(self.VarType) {
-		return fmt.Sprintf("let %s = %s;", self.Ident, self.Expression)
+	pub := ""
+	if self.IsPub {
+		pub = "pub "
 	}
-	return fmt.Sprintf("let %s: %s = %s;", self.Ident, self.VarType, self.Expression)
+	if containsNever(self.VarType) {
+		return fmt.Sprintf("%slet %s = %s;", pub, self.Ident, self.Expression)
+	}
+	return fmt.Sprintf("%slet %s: %s = %s;", pub, self.Ident, self.VarType, self.Expression)
 }
 
 func containsNever(typ Type) bool {
